@@ -635,4 +635,16 @@ theorem afterTopK_spec_fix_on {o : Ops α} (h : OrdLawsOn o) (ha : ArithLawsOn o
   rw [hy1v'] at this
   simpa using this
 
+/-- the residual per-run guard: the normaliser, the probabilities and the kept mass are FINITE (a
+    quantitative fact — a sum of at most 2³¹ numbers of `[0, 1]` — that no order law gives) -/
+def massFinite (o : Ops α) (P : Params α) (L1 : List (Tok α)) : Bool :=
+  let vs := scaledOf o P L1
+  let m := vs.foldl (fun m v => if o.lt m v then v else m) o.negInf
+  let s := (vs.map (fun v => o.exp (o.sub v m))).foldl o.add o.zero
+  o.lt o.zero s && o.lt s o.posInf &&
+  (probsOf o P L1).all (fun t => o.lt t.val o.posInf) &&
+  (match minP o P.minP (topP o P.topP (probsOf o P L1)) with
+   | .ok f => (cumsum o o.zero f).all (fun t => o.lt t.val o.posInf)
+   | .error _ => true)
+
 end OllamaVerif.Sampler
